@@ -127,6 +127,14 @@ class Interp(Exec):
                 self.st.env[name] = VNone
 
     def st_Assert(self, s):
+        ctr = self.reg.contracts.get(self.frame.fi.fid) if self.frame and self.frame.fi else None
+        if ctr is not None and ctr.labels.get("asserts_assumed"):
+            # stated in the contract: the function's own run-time asserts are taken as preconditions (AssertionError paths are outside the claim)
+            try:
+                self.assume(self.truth(self.ev(s.test)))
+            except Unsupported:
+                pass
+            return
         c = self.truth(self.ev(s.test))
         self.oblige("assert@%d" % s.lineno, c, kind="assert")
         self.assume(c)
